@@ -27,6 +27,22 @@ CLAIMED = {
     "C39": ("E2", "symbolic execution of Context::find_file / do_find_file and FsLoader::find_file (MIR) with a failure injected at every loader / open / read / lock call; z3 and cvc5",
             "bounded model checking (lookup scope): every failing loader, open, read or lock call makes the lookup return an error (never Ok(None) or a later candidate); "
             "the evaluator's callers and whole compilations are outside"),
+    "C38": ("E2", "symbolic execution of compile_scss, compile_scss_path, compile_value, Context::with_format, Context::transform, FsLoader::for_path and css::Property::write (MIR) "
+            "with every callee an event and every fallible callee forking into Ok and Err; path feasibility decided by z3 and cvc5",
+            "bounded model checking (wrapper scope): on every path the entry points hand the bytes / path / format they were given, unchanged, to one pipeline "
+            "(lock, parse, handle_parsed into a fresh CssData in the context's scope, unlock, into_buffer with that scope's format) and return its result unchanged; "
+            "compile_value and a declaration both print value.format(<the format given>).to_string(); what the pipeline computes (parser, evaluator, printer) is outside"),
+    "C34": ("E2", "symbolic execution of the expose() function of every sass: module, of the helpers they call, of the FUNCTIONS initialiser, of the meta.call closure, "
+            "get_function() and the Call arm of do_evaluate (MIR), the literal name tables unrolled row by row; path feasibility decided by z3 and cvc5",
+            "bounded model checking (table scope): each global name the Sass documentation pairs with a module function is bound, in the global table, to the function object "
+            "the module itself holds (so parameter names, defaults and body are shared by construction) and is not redefined afterwards; each module's expose() gets its own module; "
+            "meta.call with a function reference calls exactly the referenced function object with the arguments given, and get-function and a direct call make the same two-step lookup "
+            "(scope chain, then built-ins); abs/min/max/round/grayscale/invert (CSS-aware global forms) are outside"),
+    "C22": ("E2", "symbolic execution of Opt::collect_pos / collect_neg, of one level of no_placeholder for SelectorSet, Selector, CompoundSelector and Pseudo, and of css::Rule::write (MIR); "
+            "the recursive calls return every Opt value; path feasibility decided by z3 and cvc5",
+            "bounded model checking, inductive step over the selector tree (filter scope): the placeholder filter is a sound three-valued algebra — a list is a union, a compound an "
+            "intersection, :not() a complement, a placeholder matches nothing, `everything` is never kept as an empty selector — and Rule::write emits nothing for `nothing` and only the "
+            "filtered selectors otherwise; collect_pos / collect_neg for every sequence of up to 3 elements; selector parsing, nesting and printing are outside"),
     "C06": ("E2", "symbolic execution of the closures' MIR, obligations decided by z3 and cvc5",
             "bounded model checking (sequential scope): one inductive step of unique-id() from an arbitrary counter state; random($limit) in "
             "[1,limit] for every limit; concurrency is outside the claim"),
@@ -95,15 +111,12 @@ NOT_APPLICABLE = {
     "C10": "the kernel is a Display impl interleaving digit extraction with write! into a String and f64: Display (concrete 1.5: no verdict in 200 s); 'printed decimal = correctly rounded binary' needs FP<->Real reasoning no solver here finishes",
     "C15": "precedence and associativity are decided by the nom parser layering",
     "C19": "recursive selector trees of Strings: any harness with one combinator level gave no verdict in 420 s; `&` resolution re-enters the parser",
-    "C22": "selector trees (see C19)",
     "C23": "selector trees: compound-only transitivity took 275 s, one combinator level no verdict in 420 s",
     "C24": "selector algebra over the same trees; append re-enters the parser",
     "C25": "selector parser (nom) and printer (core::fmt)",
     "C27": "CssString::unquote/Display and the parser's escape handling rebuild Strings char by char (CBMC: OOM at 18 GB on 3-byte strings)",
     "C30": "decided by the calc grammar in the nom parser",
-    "C34": "equality of two dispatch tables built at LazyLock init (BTreeMap, parser for defaults)",
     "C35": "metamorphic relation between two parses of rewritten sources: parser",
-    "C38": "agreement of whole-compilation entry points",
     "C40": "the CLI process",
 }
 
